@@ -137,11 +137,14 @@ class KvsCursor(Cursor):
 
 
 class SeqCursor(Cursor):
-    def __init__(self, seq, i, ety):
+    """index-based iteration over a z3 sequence.  Ghost `seen` = set of the elements visited so
+    far ({seq[j] | j < i}); when the loop runs to completion it equals the set of all elements."""
+    def __init__(self, seq, i, ety, seen=None):
         self.seq, self.i, self.ety = seq, i, ety
+        self.seen = seen if seen is not None else z3.K(ety.sort(), z3.BoolVal(False))
 
     def info(self):
-        return {'seq': self.seq, 'i': self.i}
+        return {'seq': self.seq, 'i': self.i, 'seen': self.seen}
 
     def more(self):
         return self.i < z3.Length(self.seq)
@@ -149,12 +152,22 @@ class SeqCursor(Cursor):
     def havoc(self, eng, st):
         i = fresh('idx', IntS)
         st.assume(z3.And(i >= 0, i <= z3.Length(self.seq)))
-        return SeqCursor(self.seq, i, self.ety)
+        seen = fresh('seen', z3.ArraySort(self.ety.sort(), BoolS))
+        x = z3.Const('qx!seen', self.ety.sort())
+        st.assume(z3.ForAll([x], z3.Implies(z3.Select(seen, x),
+                                            z3.Contains(self.seq, z3.Unit(x)))))
+        return SeqCursor(self.seq, i, self.ety, seen)
+
+    def at_end(self, eng, st):
+        x = z3.Const('qx!seenall', self.ety.sort())
+        st.assume(z3.ForAll([x], z3.Select(self.seen, x) == z3.Contains(self.seq, z3.Unit(x))))
 
     def next(self, eng, st):
         # (fact of sequence theory stated explicitly: the element at a valid index is contained)
         st.assume(z3.Contains(self.seq, z3.Unit(self.seq[self.i])))
-        return Sym(self.seq[self.i], self.ety), SeqCursor(self.seq, self.i + 1, self.ety)
+        return (Sym(self.seq[self.i], self.ety),
+                SeqCursor(self.seq, self.i + 1, self.ety,
+                          z3.Store(self.seen, self.seq[self.i], True)))
 
 
 class SetCursor(Cursor):
@@ -266,9 +279,26 @@ class Intrinsics:
                                     note(f, recv.value if depth == 0 or (
                                         isinstance(recv.value, ast.Name)
                                         and recv.value.id == 'self' and self_ok) else None, cls_hint)
-                        # repo methods: union of callee modifies (contract) or scan (inline)
+                        # repo methods: union of callee modifies (contract) or scan (inline);
+                        # the receiver's class narrows the candidates when it is evident
+                        rcls = None
+                        if isinstance(recv, ast.Name):
+                            if recv.id == 'self':
+                                rcls = cls_hint
+                            elif recv.id in eng.prog.classes:
+                                rcls = recv.id
+                        elif isinstance(recv, ast.Attribute) and isinstance(recv.value, ast.Name) \
+                                and recv.value.id == 'self' and cls_hint is not None:
+                            fq, _own = eng.resolve_field(cls_hint, recv.attr)
+                            if fq is not None:
+                                fty = eng.fields[fq]
+                                if fty.kind == 'opt':
+                                    fty = fty.args[0]
+                                if fty.kind == 'obj':
+                                    rcls = fty.cls.rstrip('?')
                         for q, fi in eng.prog.funcs.items():
-                            if fi.node.name == meth:
+                            if fi.node.name == meth and (rcls is None or fi.cls is None
+                                                         or related(fi.cls, rcls)):
                                 con = eng.reg.get(q)
                                 if con is not None and not getattr(con, 'force_inline', False):
                                     for m in getattr(con, 'modifies_static', None) or \
@@ -448,6 +478,9 @@ class Intrinsics:
     # ---- operators -----------------------------------------------------------------------------
     def binop(self, eng, st, op, a, b, node):
         if isinstance(op, ast.Add):
+            if isinstance(a, TupleV) and isinstance(b, Sym) and b.ty.kind == 'pyv' and any(
+                    isinstance(it, Sym) and it.ty.kind == 'obj' for it in a.items):
+                return ArgsV(a.items, b)       # (builder,) + args: positional arguments of a call
             if isinstance(a, TupleV) and isinstance(b, Sym) and b.ty.kind == 'pyv':
                 l = PyV.titems(b.t)
                 for it in reversed(a.items):
